@@ -139,6 +139,8 @@ func VHQueuePhases() {
 		vAssert(ok == (len(model) > 0), "phases: Peek reports emptiness")
 		if len(model) > 0 {
 			vAssert(pk == model[0], "phases: Peek returns the next value to dequeue")
+		} else {
+			vAssert(pk == 0, "phases: Peek on an empty queue returns the zero value, whatever passed through before")
 		}
 		vAssert(q.Len() == len(model), "phases: Len is the number of values inside")
 	}
@@ -148,8 +150,14 @@ func VHQueuePhases() {
 	phase(false, c16len("drain2", p, len(model)))
 	phase(true, vChoose("refill2", 3))
 	phase(false, len(model))
-	_, ok := q.Dequeue()
+	dz, ok := q.Dequeue()
 	vAssert(!ok, "phases: the drained queue is empty")
+	vAssert(dz == 0, "phases: Dequeue on the drained queue returns the zero value")
+	pz, pok := q.Peek()
+	vAssert(!pok && pz == 0, "phases: Peek on the drained queue returns the zero value and false")
+	q.Enqueue(5)
+	pz, pok = q.Peek()
+	vAssert(pok && pz == 5 && q.Len() == 1, "phases: the drained queue is usable again")
 	vCover("queue phases done")
 }
 
@@ -176,7 +184,13 @@ func VHStackPhases() {
 	phase(false, c16len("drain", p, len(model)))
 	phase(true, c16len("refill", p, -1))
 	phase(false, len(model))
-	_, ok := s.Pop()
+	dz, ok := s.Pop()
 	vAssert(!ok, "phases: the drained stack is empty")
+	vAssert(dz == 0, "phases: Pop on the drained stack returns the zero value")
+	pz, pok := s.Peek()
+	vAssert(!pok && pz == 0, "phases: Peek on the drained stack returns the zero value and false")
+	s.Push(5)
+	pz, pok = s.Peek()
+	vAssert(pok && pz == 5 && len(s) == 1, "phases: the drained stack is usable again")
 	vCover("stack phases done")
 }
